@@ -668,6 +668,7 @@ func replayInside(rf replayFile) int {
 	}
 	opts := defaultOpts(rf.Tier)
 	opts.Explore = rf.Explore
+	opts.TraceSched = true
 	for k, v := range rf.Params {
 		opts.Params[k] = v
 	}
